@@ -363,7 +363,8 @@ impl<'a> RawFile<'a> {
                         DeserializationWarning::InternalFileLengthIsSmall(lf, actual_file_length),
                     ),
                 }
-                if lf <= 3 {
+                // The twelve sub-file sizes occupy the first 6 words (24 bytes) of the file.
+                if lf <= 5 {
                     return (
                         Err(DeserializationError::InternalFileLengthIsTooSmall(
                             lf,
@@ -379,7 +380,7 @@ impl<'a> RawFile<'a> {
         let s: SubFileSizes = {
             let sb: [u8; 24] = b
                 .get(0..24)
-                .expect("3 < lf <= b.len()")
+                .expect("6 <= lf and 4*lf <= b.len()")
                 .try_into()
                 .expect("slice has 24 elements so fits in 24 length const array");
             sb.into()
